@@ -159,7 +159,9 @@ def validate_sessions(run, trace, label):
 def negctl_trace(run, sess):
     """(a) swap the seq of two provider events of different threads, (b) change one logged result:
     the trace spec must flag the session, with the right class."""
-    clean = [s for s in sess if s["plan"]["kind"] == "clean" and sum(1 for th in s["thr"] if any(c["evs"] for c in th)) >= 2][:1]
+    clean = [s for s in sess if s["plan"]["kind"] == "clean" and sum(1 for th in s["thr"] if any(c["evs"] for c in th)) >= 2
+             and any(sum(1 for th in s["thr"] for c in th for e in c["evs"] if e["zone"] == z and e["hit"]) >= 1 and sum(1 for th in s["thr"] for c in th if any(e["zone"] == z for e in c["evs"])) >= 2
+                     for z in {e["zone"] for th in s["thr"] for c in th for e in c["evs"]})][:1]
     if not clean:
         raise ToolError("negative control (trace): no clean multi-thread session recorded")
     base = clean[0]
@@ -172,9 +174,23 @@ def negctl_trace(run, sess):
     # (a) swap seqs
     s = copy.deepcopy(base)
     evs = sorted(((e["seq"], ti, ci, ei) for ti, th in enumerate(s["thr"]) for ci, c in enumerate(th) for ei, e in enumerate(c["evs"])))
-    pair = next(((a, b) for a, b in zip(evs, evs[1:]) if a[1] != b[1]), None)
+    # a swap that no interleaving of the model can explain: the first (miss) event of a zone exchanged with a later hit on the
+    # same zone made by ANOTHER call -> a hit precedes the miss (cache-memo), and the calls' events are no longer contiguous.
+    # (Swapping two arbitrary adjacent events of different threads can yield another valid behaviour, which made this control flaky.)
+    def ev(x):
+        return s["thr"][x[1]][x[2]]["evs"][x[3]]
+    pair = None
+    for a in evs:
+        if ev(a)["hit"]:
+            continue
+        for b in evs:
+            if b[0] > a[0] and ev(b)["hit"] and ev(b)["zone"] == ev(a)["zone"] and (b[1], b[2]) != (a[1], a[2]):
+                pair = (a, b)
+                break
+        if pair:
+            break
     if not pair:
-        raise ToolError("negative control (trace): no adjacent provider events of different threads")
+        raise ToolError("negative control (trace): no miss followed by a hit on the same zone from another call")
     (sa, ta, ca, ea), (sb, tb, cb, eb) = pair
     s["thr"][ta][ca]["evs"][ea]["seq"], s["thr"][tb][cb]["evs"][eb]["seq"] = sb, sa
     acc, mm, outp, dt, txt = validate(run, write(s, "negctl_swap.trace.ndjson"), label="negctl_swap")
